@@ -58,6 +58,8 @@ def IP_END : Nat := 34
 def OFF_ETHERTYPE : Nat := 12
 def OFF_VIHL : Nat := 14
 def OFF_PROTO : Nat := 23
+/-- `ip->frag_off` (flags + 13-bit fragment offset) -/
+def OFF_FRAG : Nat := 20
 def OFF_IPCSUM : Nat := 24
 def OFF_SADDR : Nat := 26
 def OFF_DADDR : Nat := 30
@@ -148,6 +150,10 @@ def isPrivate (ip : UInt32) : Bool :=
 /-- `ip->version != 4 || ip->ihl < 5` on the first byte of the IP header (the guard added by the
     fix of finding D-nat44-ihl; before it, for ihl < 5 the "L4 header" overlapped the IP header) -/
 def badIpHeader (vihl : UInt8) : Bool := vihl >>> 4 != 4 || (vihl &&& 0x0f) < 5
+
+/-- `ip->frag_off & bpf_htons(0x1FFF)`: a non-first fragment (the little-endian host holds `htons(0x1FFF)` as
+    0xFF1F) — it carries no L4 header (guard added by the fix of finding D-nat44-frag) -/
+def laterFragment (fragOff : UInt16) : Bool := (fragOff &&& 0xFF1F) != 0
 
 /-- `check_alg_trigger(port, protocol)`: key of `alg_ports` -/
 def algKey (port : UInt16) (proto : UInt8) : UInt32 := (port.toUInt32 <<< 16) ||| proto.toUInt32
@@ -255,6 +261,9 @@ def egressParse (m : Maps) (f : Frame) : M EgParse :=
   -- if (ip->version != 4 || ip->ihl < 5) return TC_ACT_OK;
   let vihl0 ← ld8 f OFF_VIHL
   if badIpHeader vihl0 then pure (.pass 0) else do
+  -- if (ip->frag_off & bpf_htons(0x1FFF)) return TC_ACT_OK;
+  let fragOff ← ld16 f OFF_FRAG
+  if laterFragment fragOff then pure (.pass 0) else do
   let saddr ← ld32 f OFF_SADDR
   if !isPrivate saddr then pure (.pass 0) else
   match AMap.lookup m.subNat saddr with
@@ -374,6 +383,9 @@ def ingressParse (f : Frame) : M (Option Pkt) :=
   -- if (ip->version != 4 || ip->ihl < 5) return TC_ACT_OK;
   let vihl0 ← ld8 f OFF_VIHL
   if badIpHeader vihl0 then pure none else do
+  -- if (ip->frag_off & bpf_htons(0x1FFF)) return TC_ACT_OK;
+  let fragOff ← ld16 f OFF_FRAG
+  if laterFragment fragOff then pure none else do
   let saddr ← ld32 f OFF_SADDR
   let daddr ← ld32 f OFF_DADDR
   let proto ← ld8 f OFF_PROTO
@@ -482,11 +494,12 @@ def hairpin (m : Maps) (f : Frame) : M Out :=
 def l4Off (f : Frame) : Nat := ETH_HLEN + (rd8 f OFF_VIHL &&& 0x0f).toNat * 4
 
 /-- an IPv4 frame with a complete, well-formed basic IP header (version 4, header length at least 5
-    words) that carries TCP, UDP or ICMP with the part of the L4 header the programs use (20/8/8 bytes
+    words) that is not a later fragment (fragment offset 0: only then is there an L4 header) and carries TCP, UDP or ICMP with the part of the L4 header the programs use (20/8/8 bytes
     at `14 + ihl*4`) inside the frame -/
 def natCandidate (f : Frame) : Bool :=
   decide (IP_END ≤ f.length) && rd16 f OFF_ETHERTYPE == ETH_P_IP_BE &&
   (rd8 f OFF_VIHL >>> 4 == 4 && (rd8 f OFF_VIHL &&& 0x0f) >= 5) &&
+  !laterFragment (rd16 f OFF_FRAG) &&
   ((rd8 f OFF_PROTO == IPPROTO_TCP && decide (l4Off f + 20 ≤ f.length)) ||
    (rd8 f OFF_PROTO == IPPROTO_UDP && decide (l4Off f + 8 ≤ f.length)) ||
    (rd8 f OFF_PROTO == IPPROTO_ICMP && decide (l4Off f + 8 ≤ f.length)))
